@@ -15,7 +15,7 @@ def hsName : HS → String | .write => "write" | .test => "test" | .rmPid => "rm
 def locName : Loc → String
   | .init => "init" | .reg => "reg" | .term => "term" | .pre => "pre" | .tryLock => "tryLock"
   | .locked => "locked" | .rmFailed => "rmFailed" | .setStarted => "setStarted" | .callBody => "callBody" | .body k => s!"body:{k}"
-  | .raised0 => "raised0" | .bodyDone => "bodyDone" | .restTerm => "restTerm" | .restInt => "restInt" | .sysExit => "sysExit"
+  | .raised1 => "raised1" | .raised0 => "raised0" | .bodyDone => "bodyDone" | .restTerm => "restTerm" | .restInt => "restInt" | .sysExit => "sysExit"
   | .touch => "touch" | .reraise => "reraise" | .skipped => "skipped"
   | .herr h _ => s!"herr:{hsName h}"
   | .fin (some c) _ => s!"fin:{csName c}"
